@@ -54,7 +54,12 @@ type Task struct {
 	fn      func(*Task)
 	which   string
 	started bool
-	timed   bool // waiting on a predicate that a timer may make true (counts as blocked, not as deadlocked)
+	// syncWord carries one happens-before edge from this task to the scheduler each time the task parks
+	// with a readiness predicate: the scheduler evaluates the predicate (which may read program memory,
+	// e.g. a pointer to a mutex) on the task's behalf and must know what the task knew. Tasks only store
+	// (release), only the scheduler loads (acquire), so no edge between tasks arises.
+	syncWord int64
+	timed    bool // waiting on a predicate that a timer may make true (counts as blocked, not as deadlocked)
 }
 
 type SimCfg struct {
@@ -502,6 +507,7 @@ func (s *Sim) Await(point string, obj interface{}, ready func() bool) {
 	t.ready = ready
 	t.point = point
 	t.obj = obj
+	syncRelease(&t.syncWord)
 	s.park(t)
 	t.ready = nil
 	t.obj = nil
@@ -520,6 +526,7 @@ func (s *Sim) WaitUntil(point string, pred func() bool) {
 	t.state = tsWaiting
 	t.ready = pred
 	t.point = point
+	syncRelease(&t.syncWord)
 	s.park(t)
 	t.ready = nil
 }
@@ -664,6 +671,12 @@ func (s *Sim) TaskEnd(handle interface{}) {
 }
 
 //go:noinline
+func syncRelease(p *int64) { atomic.StoreInt64(p, 1) }
+
+//go:noinline
+func syncAcquire(p *int64) int64 { return atomic.LoadInt64(p) }
+
+//go:noinline
 func endRelease(p *int64) { atomic.AddInt64(p, 1) }
 
 //go:noinline
@@ -728,6 +741,9 @@ func (s *Sim) Run() {
 			case tsRunnable:
 				enabled = append(enabled, t)
 			case tsWaiting:
+				raceOn()
+				syncAcquire(&t.syncWord)
+				raceOff()
 				if t.ready() {
 					enabled = append(enabled, t)
 				} else if t.timed {
